@@ -39,7 +39,7 @@ def sh(cmd, cwd=None, env=None, timeout=None):
         return -1, out or '', time.time() - t0, True
 
 
-def build_workspace(repo, wd, cfg):
+def build_workspace(repo, wd, cfg, tier='quick'):
     ws = os.path.join(wd, 'kws_' + cfg['name'])
     os.makedirs(ws)
     members = cfg.get('members', ['utils'])
@@ -74,7 +74,7 @@ def build_workspace(repo, wd, cfg):
     # files the copy above leaves out.  A non-zero exit is a lost anchor (undecided), never a pass.
     pregen = cfg.get('pregen') or []
     for cmd in ([pregen] if pregen and isinstance(pregen[0], str) else pregen):
-        cmd = [a.replace('{repo}', repo).replace('{ws}', ws).replace('{verif}', VERIF) for a in cmd]
+        cmd = [a.replace('{repo}', repo).replace('{ws}', ws).replace('{verif}', VERIF).replace('{tier}', tier) for a in cmd]
         rc, out, _, _ = sh(cmd, cwd=VERIF, timeout=600)
         if rc != 0:
             return None, 'lost anchor: pregen %s failed: %s' % (' '.join(cmd), out[-800:]), []
@@ -176,7 +176,7 @@ def run_unit_locked(repo, unit, cfg, wd, tier='quick', prop=None):
            'functions': [], 'assumptions': [], 'obligations': 0, 'discharged': 0, 'smt_ms': 0, 'wall_s': 0,
            'bounded': [], 'harnesses': [], 'canary': {}}
     t0 = time.time()
-    ws, err, appended = build_workspace(repo, wd, cfg)
+    ws, err, appended = build_workspace(repo, wd, cfg, tier)
     if err:
         res['status'] = 'undecided'
         res['framework_errors'].append({'message': err})
